@@ -2275,10 +2275,18 @@ local function visit_close(context, declnode, varnode, symbol)
   assert(blocknode.is_Block)
   local statindex = tabler.ifind(blocknode, declnode) -- find this node index
   assert(statindex)
+  -- the defers of one declaration must follow the declaration order of its variables,
+  -- whatever the order in which their types got resolved: skip the ones of earlier variables
   local declattr = declnode.attr
-  local closeindex = (declattr.closeindex or statindex) + 1
+  local closenodes = declattr.closenodes or {}
+  declattr.closenodes = closenodes
+  local varindex = tabler.ifind(declnode[2], varnode)
+  local closeindex = statindex + 1
+  for i=1,varindex-1 do
+    if closenodes[i] then closeindex = closeindex + 1 end
+  end
   table.insert(blocknode, closeindex, callnode) -- insert the new statement
-  declattr.closeindex = closeindex
+  closenodes[varindex] = callnode
   blocknode.scope:delay_resolution() -- must delay resolution
   symbol.closed = true
 end
